@@ -482,10 +482,14 @@ Print Assumptions C10_stacked_index_val.
    is the element at index idx of output j of the function with the ORIGINAL MapSpec computed from q := arrs[n]
    (MapDenote.denote_elem: the arguments delivered by the MapSpec at that index, the user code, the routing of the
    j-th returned value; errors included).  It holds for any mask (internal axes allowed).
-   NOT proved: the two other branches of new_spec (a function without MapSpec gets `q[:, .., k] -> outs[k]`; a mapped
-   function that takes q whole gets q appended), the assembly over all indices into arrays (slice_last of
-   denote_mapped) and the induction along the pipeline through func_shape; they remain checked by the
-   correspondence (Corr/Run_C10Map.v, kind add_axis: the implementation and map_run are compared per slice). *)
+   The two other branches of new_spec are below: a function WITHOUT MapSpec gets `q[:, .., k] -> outs[k]`
+   (C10_add_axis_lifts_fresh_partial); a mapped function that takes q WHOLE gets `q[:, .., k]` appended to its inputs
+   (C10_add_axis_lifts_whole_partial).  So the pointwise statement holds for every per-function step of
+   add_mapspec_axis in which the axis is new to the function.
+   NOT proved: the assembly over all indices into arrays (slice_last of denote_mapped), the induction along the
+   pipeline through func_shape (shapes of the lifted MapSpecs), and functions that already carry the axis; they
+   remain checked by the correspondence (Corr/Run_C10Map.v, kind add_axis: the implementation and map_run are
+   compared per slice). *)
 Theorem C10_add_axis_lifts_elem_partial : forall body f q dims k ms ms' e n sh arrs an kw mask idx j,
   fspec f = Some ms -> mem_str q (map aname (ins ms)) = true ->
   (forall a, In a (ins ms ++ outs ms) -> has_axis k a = false) ->
@@ -497,6 +501,63 @@ Theorem C10_add_axis_lifts_elem_partial : forall body f q dims k ms ms' e n sh a
      = denote_elem body f ms (map (setq q (VA an)) kw) mask j idx.
 Proof. exact add_axis_lifts_elem. Qed.
 Print Assumptions C10_add_axis_lifts_elem_partial.
+
+(* a function without MapSpec that takes q (an input, or an output of a function that got the axis): new_spec gives it
+   `q[:, .., :, k] -> o1[k], .., om[k]` (dims: the rank of q after the axis is added); element n of its output j, from
+   q := stack of arrs, is the j-th value that the ORIGINAL unmapped call returns from q := arrs[n] (a scalar: the
+   model stores scalars in mapped outputs) - the full slice `:` of the stacked array at n is the n-th array *)
+Theorem C10_add_axis_lifts_fresh_partial : forall body f q k dims ms', fspec f = None -> new_spec f q dims k = Ok ms' ->
+  forall sh arrs, (forall a, In a arrs -> shp a = sh /\ length (dat a) = prod sh) ->
+  dict_get dims q = Some (Datatypes.S (length sh)) -> sh <> [] ->
+  forall n an, nth_error arrs n = Some an -> forall kw j,
+  denote_elem body f ms' (map (setq q (VA (stacked sh arrs))) kw) [true] j [n]
+  = do outs <- body f (map (setq q (VA an)) kw);
+    match nth_error outs j with
+    | Some (VS x) => Ok x
+    | _ => Err ValueError
+    end.
+Proof. exact fresh_elem. Qed.
+Print Assumptions C10_add_axis_lifts_fresh_partial.
+
+(* a mapped function that takes q whole (q is not among the inputs of its MapSpec) *)
+Theorem C10_add_axis_lifts_whole_partial : forall body f q dims k ms ms' e n sh arrs an kw mask idx j,
+  fspec f = Some ms -> mem_str q (map aname (ins ms)) = false ->
+  (forall a, In a (ins ms ++ outs ms) -> has_axis k a = false) ->
+  dict_get dims q = Some (Datatypes.S (length sh)) -> sh <> [] ->
+  new_spec f q dims k = Ok ms' ->
+  (forall a, In a arrs -> shp a = sh /\ length (dat a) = prod sh) -> nth_error arrs n = Some an ->
+  length mask = length idx -> ext_of mask idx = e -> length e = length (external_indices ms) ->
+  denote_elem body f ms' (map (setq q (VA (stacked sh arrs))) kw) (mask ++ [true]) j (idx ++ [n])
+  = denote_elem body f ms (map (setq q (VA an)) kw) mask j idx.
+Proof. exact add_axis_lifts_elem_whole. Qed.
+Print Assumptions C10_add_axis_lifts_whole_partial.
+
+Example C10_example_add_axis_whole :
+  let A nm ax := {| aname := nm; axes := ax |} in
+  let ms := {| ins := [A (s "x") [Some (s "i")]]; outs := [A (s "y") [Some (s "i")]] |} in
+  let h := {| fname := s "h"; fouts := [s "y"]; fparams := [s "x"; s "w"]; fbound := []; fdefaults := [];
+              fspec := Some ms; fint := []; fret := [] |} in
+  let a0 := {| shp := [2]; dat := [s "p"; s "q"] |} in
+  let a1 := {| shp := [2]; dat := [s "r"; s "t"] |} in
+  let X := VA {| shp := [2]; dat := [s "u"; s "v"] |} in
+  let body := fun (g : mfunc) (kw : env) =>
+                match kw with [(_, VS x); (_, VA a)] => Ok [VS (s "h(" ++ x ++ s "," ++ StrUtil.join (s "|") (dat a) ++ s ")")] | _ => Err ValueError end in
+  exists ms', new_spec h (s "w") [(s "w", 2)] (s "k") = Ok ms' /\ print ms' = s "x[i], w[:, k] -> y[i, k]"
+    /\ denote_elem body h ms' [(s "x", X); (s "w", VA (stacked [2] [a0; a1]))] [true; true] 0 [1; 1] = Ok (s "h(v,r|t)")
+    /\ denote_elem body h ms [(s "x", X); (s "w", VA a1)] [true] 0 [1] = Ok (s "h(v,r|t)").
+Proof. exact add_axis_whole_instance. Qed.
+
+Example C10_example_add_axis_fresh :
+  let g := {| fname := s "g"; fouts := [s "z"]; fparams := [s "y"; s "c"]; fbound := []; fdefaults := [];
+              fspec := None; fint := []; fret := [] |} in
+  let a0 := {| shp := [2]; dat := [s "p"; s "q"] |} in
+  let a1 := {| shp := [2]; dat := [s "r"; s "t"] |} in
+  let body := fun (h : mfunc) (kw : env) =>
+                match kw with [(_, VA a); (_, VS c)] => Ok [VS (s "g(" ++ StrUtil.join (s "|") (dat a) ++ s "," ++ c ++ s ")")] | _ => Err ValueError end in
+  exists ms', new_spec g (s "y") [(s "y", 2)] (s "k") = Ok ms' /\ print ms' = s "y[:, k] -> z[k]"
+    /\ denote_elem body g ms' [(s "y", VA (stacked [2] [a0; a1])); (s "c", VS (s "C"))] [true] 0 [1] = Ok (s "g(r|t,C)")
+    /\ body g [(s "y", VA a1); (s "c", VS (s "C"))] = Ok [VS (s "g(r|t,C)")].
+Proof. exact add_axis_fresh_instance. Qed.
 
 Example C10_example_add_axis_lifts :
   let A nm ax := {| aname := nm; axes := ax |} in
